@@ -8,7 +8,7 @@
   the events with their answers. `passed cfg lk id obs` (Spec) is the amount (count or size) of the
   passed events of limiter key `lk` attributed to bucket `id`, `arrived` the same over all arrivals.
 
-  Hypotheses (`Hyp`): `cfgOK` (buckets_count ≥ 1, bucket_interval > 0, ≤ 256 rules, distribution
+  Hypotheses (`Hyp`, Spec/C16.lean): `cfgOK` (buckets_count ≥ 1, bucket_interval > 0, ≤ 256 rules, distribution
   tables well formed, shares ≥ 0), `nowOK` (`now` never goes back and is ≥ buckets_count ×
   bucket_interval, i.e. the clock is later than 1970-01-01 plus one window: the `minID == 0`
   sentinel of `rebuildBuckets` is then never hit by a set id), and — for the `…_partial`
@@ -19,35 +19,6 @@ import FileD.Lemmas.Throttle
 namespace FileD.PropsC16
 open FileD FileD.Throttle FileD.SpecC16 FileD.ThrottleLemmas
 
-/-- hypotheses shared by the theorems: static configuration, clock, expiry -/
-structure Hyp (cfg : Cfg) (ops : List Op) : Prop where
-  hcfg : cfgOK cfg = true
-  hnow : nowOK cfg ((cfg.count : Int) * cfg.interval) (evs ops) = true
-  hsafe : SafeExpiry cfg [] [] ops
-
-/-! ### concrete instances used by the non-vacuity examples -/
-
-def ka : Bytes := [97]
-def kb : Bytes := [98]
-/-- buckets_count 2, bucket_interval 10, one (default) rule: limit 1, count kind -/
-def cfg1 : Cfg := ⟨2, 10, [⟨[], 1, .count, Distr.empty⟩]⟩
-def ev1 (key : Bytes) (ts now : Int) : Op := .ev ⟨key, ts, now, 1, []⟩
-/-- two events of key a in bucket 10, one of key b, a jump of three windows, key a again -/
-def ops1 : List Op := [ev1 ka 100 100, ev1 ka 105 105, ev1 kb 103 106, ev1 ka 165 165, ev1 ka 100 166]
-
-theorem hyp1 : Hyp cfg1 ops1 :=
-  ⟨by decide, by decide, safe_of_noExpire cfg1 ops1 [] [] (fun _ h => by cases h) (by decide)⟩
-
-/-- the same with the limiter of key a expiring during the jump: allowed, nothing of a's history
-    is inside the window when a comes back -/
-def ops2 : List Op := [ev1 ka 100 100, ev1 ka 105 105, .expire (limKey 0 ka), ev1 ka 165 165]
-
-theorem hyp2 : Hyp cfg1 ops2 := by
-  refine ⟨by decide, by decide, ?_⟩
-  simp only [ops2, ev1, SafeExpiry, List.mem_cons, List.not_mem_nil, or_false, false_or,
-    true_and, and_true, forall_eq, forall_eq_or_imp, false_implies, implies_true]
-  decide
-
 /-! ### refinement: the model is the abstract machine of unbounded counters -/
 
 /-- **core**: for every op sequence satisfying the hypotheses the model answers exactly like the
@@ -56,7 +27,7 @@ theorem hyp2 : Hyp cfg1 ops2 := by
     events to the newest bucket, the limiter map and its (safe) expiry are all invisible. -/
 theorem refines_counters (cfg : Cfg) (ops : List Op) (h : Hyp cfg ops) :
     results cfg State.init ops = absResults cfg Cnt.zero ops :=
-  sim_results cfg (cfgOK_wf cfg h.hcfg) ops State.init Cnt.zero ((cfg.count : Int) * cfg.interval) [] [] (sim_init cfg _) h.hnow h.hsafe
+  hyp_results cfg ops h
 
 example : results cfg1 State.init ops1 = [.pass, .discard, .pass, .pass, .discard] := by decide
 example : results cfg1 State.init ops1 = absResults cfg1 Cnt.zero ops1 := refines_counters _ _ hyp1
@@ -70,10 +41,6 @@ theorem run_total (cfg : Cfg) (ops : List Op) (h : Hyp cfg ops) (p : Panic) :
 example : Res.panic .bounds ∉ results cfg1 State.init ops2 := run_total _ _ hyp2 _
 
 /-! ### the limit per key and bucket -/
-
-theorem observed_eq (cfg : Cfg) (ops : List Op) (h : Hyp cfg ops) :
-    observe ops (results cfg State.init ops) = absObs cfg Cnt.zero (evs ops) := by
-  rw [refines_counters cfg ops h, observe_abs]
 
 /-- **C16, partial**: for every op sequence (event times out of order, in the past, in the future;
     `now` standing still or advancing by any amount), every rule `i` with a limit ≥ 0 and no
@@ -94,6 +61,18 @@ example : passed cfg1 (limKey 0 ka) 16 (observe ops1 (results cfg1 State.init op
 example : passed cfg1 (limKey 0 ka) 10 (observe ops2 (results cfg1 State.init ops2)) ≤ 1 :=
   passed_le_limit_partial cfg1 ops2 hyp2 (by decide) 0 _ ka 10 rfl (by decide) rfl
 
+/-- the expiry hypothesis holds in particular when a key that lost its limiter comes back only
+    after the clock moved by a whole retained window since the key's last event — what
+    `limiter_expiration ≥ bucket_interval × buckets_count` provides when the clock is the wall clock -/
+theorem silent_window_is_safe (cfg : Cfg) (ops : List Op) (hc : 0 < cfg.count)
+    (h : SilentExpiry cfg [] [] ops) : SafeExpiry cfg [] [] ops :=
+  safe_of_silent cfg hc ops [] [] h
+
+example : SilentExpiry cfg1 [] [] ops2 := by
+  simp only [ops2, ev1, SilentExpiry, List.mem_cons, List.not_mem_nil, or_false, false_or,
+    true_and, and_true, forall_eq, forall_eq_or_imp, false_implies, implies_true]
+  decide
+
 /-- the full statement: the same without any assumption on when limiters expire -/
 def PassedLeLimit : Prop :=
   ∀ (cfg : Cfg) (ops : List Op), cfgOK cfg = true →
@@ -102,12 +81,10 @@ def PassedLeLimit : Prop :=
       r.distr.isEnabled = false →
       passed cfg (limKey i key) id (observe ops (results cfg State.init ops)) ≤ r.limit
 
-/-- witness: limit 1; the bucket is exhausted, the limiter expires although its bucket is still
-    retained, the next event of the same bucket passes through a fresh limiter (corpus/C16/expiry.case
-    replays it on the implementation: it was reachable with limiter_expiration < bucket_interval ×
-    buckets_count before the fix) -/
-def opsBad : List Op := [ev1 ka 100 100, ev1 ka 101 101, .expire (limKey 0 ka), ev1 ka 102 102]
-
+/-- witness `opsBad` (Lemmas): limit 1; the bucket is exhausted, the limiter expires although its
+    bucket is still retained, the next event of the same bucket passes through a fresh limiter
+    (corpus/C16/expiry.case replays it on the implementation: reachable with limiter_expiration <
+    bucket_interval × buckets_count before the fix) -/
 theorem passed_le_limit_counterexample : ¬ PassedLeLimit := by
   intro h
   have := h cfg1 opsBad (by decide) (by decide) (by decide) 0 _ ka 10 rfl (by decide) rfl
@@ -142,19 +119,6 @@ theorem distribution_shares (cfg : Cfg) (ops : List Op) (h : Hyp cfg ops)
     rw [sumF_zero, sumF_shares] at this
     omega
 
-def fd : Bytes := [100]
-def ve : Bytes := [101]
-def vq : Bytes := [113]
-/-- limit 4 distributed on field d: value e gets share 2, the default distribution share 1 -/
-def cfgD : Cfg := ⟨2, 10, [⟨[], 4, .count, ⟨fd, [(ve, 0)], [2], 1, true⟩⟩]⟩
-def evD (v : Bytes) (now : Int) : Op := .ev ⟨ka, now, now, 1, [(fd, v)]⟩
-/-- three e events (third over its share), three other events (one in the default share, one
-    stealing the free unit of e's share - none left - so: q passes once, steals nothing) -/
-def opsD : List Op := [evD ve 100, evD vq 101, evD ve 102, evD ve 103, evD vq 104, evD vq 105]
-
-theorem hypD : Hyp cfgD opsD :=
-  ⟨by decide, by decide, safe_of_noExpire cfgD opsD [] [] (fun _ h => by cases h) (by decide)⟩
-
 example : results cfgD State.init opsD = [.pass, .pass, .pass, .discard, .discard, .discard] := by decide
 example : passedListed cfgD ⟨fd, [(ve, 0)], [2], 1, true⟩ (limKey 0 ka) 10 0
     (observe opsD (results cfgD State.init opsD)) ≤ 2 :=
@@ -165,36 +129,6 @@ example : results cfgD State.init [evD vq 100, evD vq 101, evD vq 102, evD vq 10
     = [.pass, .pass, .pass, .discard, .discard] := by decide
 
 /-! ### never rejected under the limit -/
-
-/-- what `rejectOK` says, as a proposition: every discarded event of a rule with limit ≥ 0 and
-    no distribution saw arrivals (itself included) above the limit in its bucket -/
-theorem rejectOK_spec (cfg : Cfg) : ∀ (obs : List (Ev × Bool)) (pre : List Ev),
-    rejectOK cfg pre obs = true →
-    ∀ (a : List (Ev × Bool)) (x : Ev × Bool) (b : List (Ev × Bool)), obs = a ++ x :: b → x.2 = false →
-    ∀ ir, ruleOf cfg x.1 = some ir → ir.2.distr.isEnabled = false → 0 ≤ ir.2.limit →
-      ir.2.limit < arrived cfg (limKey ir.1 (throttleKey x.1)) (attr cfg x.1) (pre ++ a.map (·.1) ++ [x.1]) := by
-  intro obs
-  induction obs with
-  | nil => intro pre _ a x b h; simp at h
-  | cons y t ih =>
-    intro pre hrej a x b hsplit hx ir hro hd h0
-    simp only [rejectOK, Bool.and_eq_true] at hrej
-    cases a with
-    | nil =>
-      simp only [List.nil_append, List.cons.injEq] at hsplit
-      obtain ⟨hy, _⟩ := hsplit
-      subst hy
-      have h1 := hrej.1
-      rw [hro] at h1
-      have hnot : ¬ ((y.2 || ir.2.distr.isEnabled || decide (ir.2.limit < 0)) = true) := by
-        rw [hx, hd]; simp; omega
-      simpa [hnot] using h1
-    | cons a0 a' =>
-      simp only [List.cons_append, List.cons.injEq] at hsplit
-      obtain ⟨hy, ht⟩ := hsplit
-      subst hy
-      have := ih (pre ++ [y.1]) hrej.2 a' x b ht hx ir hro hd h0
-      simpa [List.append_assoc] using this
 
 /-- **no reject under the limit**: a discarded event (rule with limit ≥ 0, no distribution) saw a
     bucket whose counted arrivals, itself included, exceed the limit. For the count kind: the
@@ -303,7 +237,6 @@ theorem unlimited_rules_pass (cfg : Cfg) (ops : List Op) (h : Hyp cfg ops) :
   rw [observed_eq cfg ops h]
   exact abs_mustPass cfg (evs ops) Cnt.zero
 
-def cfgU : Cfg := ⟨2, 10, [⟨[], -1, .count, Distr.empty⟩]⟩
 example : results cfgU State.init ops1 = [.pass, .pass, .pass, .pass, .pass] := by decide
 
 /-! ### the oracle of the correspondence check -/
